@@ -19,7 +19,7 @@ ID = 'C04'
 
 MANIFEST = dict(
     technique='explicit-state enumeration of all arg-max paths x margin styles x batch compositions; real greedy decoders and the real engine on a TorchScript stub vs the CTC-collapse reference',
-    text='Bounded exhaustive: every arg-max path over 2..4 classes and up to 6 frames, in four score styles (incl. exact ties resolved to the first maximal index), decoded alone, as one batch per length, and in every ordered pair (T<=3) / triple (T<=2) of lines, through greedy_decode_ctc, the real PytorchEngineLineOCR.run_ocr (stub network reproducing the tensor), GreedyDecoder and greedy_filtration; every result is compared with the reference collapse, and the input tensor must stay unmodified. Added sub-sweeps: un-normalised scores of magnitude 5000, a character table containing U+200B, logits held while the next batch runs, the engine\'s logits handed to GreedyDecoder through a TextLine, lines of 300 frames, a batch of 300 lines and a 33 001-class output layer.',
+    text='Bounded exhaustive: every arg-max path over 2..4 classes and up to 6 frames, in four score styles (incl. exact ties resolved to the first maximal index), decoded alone, as one batch per length, and in every ordered pair (T<=3) / triple (T<=2) of lines, through greedy_decode_ctc, the real PytorchEngineLineOCR.run_ocr (stub network reproducing the tensor), GreedyDecoder and greedy_filtration; every result is compared with the reference collapse, and the input tensor must stay unmodified. Added sub-sweeps: un-normalised scores of magnitude 5000, a character table containing U+200B, logits held while the next batch runs, the engine\'s logits handed to GreedyDecoder through a TextLine, lines of 300 frames, a batch of 300 lines and a 33 001-class output layer. A character table with an entry of two code points built through the engine constructor; one TextLine object that is handed the logits of line after line.',
     note='Exact ties are only placed on classes after the intended one (arg-max = first maximal index, the numpy / torch convention); the 2-D input branch of greedy_decode_ctc is not part of the property; T > 6 is not explored.',
     ref='3/C04')
 
